@@ -298,7 +298,8 @@ func cmdMsg(o opts) {
 	thorough := o.tier == "thorough"
 	mode := o.aux // "c03" or "c04"
 
-	protos := append(distinctMessages(), userMessages...)
+	protos := allProtos()
+	only64 := os.Getenv("VERIF_ONLY64") != "" // the run on a 32-bit build: only definitions with an 8-byte field are probed
 	d := &msgDriver{rec: rec, protos: protos}
 	for _, p := range protos {
 		d.defs = append(d.defs, defOf(p))
@@ -347,6 +348,15 @@ func cmdMsg(o opts) {
 			continue
 		}
 		sh := shapes(d.defs[di])
+		if only64 {
+			wide := false
+			for _, s := range sh {
+				wide = wide || (!s.isStr && s.gosize == 8)
+			}
+			if !wide {
+				continue
+			}
+		}
 		zero := zeroVals(p)
 		if mode == "c03" {
 			// every field filled at once with distinct non-zero bytes (strings at full length): neighbours must not
